@@ -83,13 +83,19 @@ impl LogicalLineFileFormatter for OptimisingLineFormatter {
         /*
             After each line's solution has been finalised, the extra spaces
             provided by `TokenSpacing` can be removed at the starts of lines.
+            When multi-line strings are formatted, lines may still be re-wrapped
+            below, and a token that starts a line now may be joined to the previous
+            line then (and needs its space); the spaces are removed at the end.
         */
-        for token_index in 0..olf.formatted_tokens.len() {
-            if let Some(data) = olf.formatted_tokens.get_formatting_data_mut(token_index) {
-                if data.newlines_before > 0 {
-                    data.spaces_before = 0;
+        if !self.olf_settings.format_multiline_strings {
+            for token_index in 0..olf.formatted_tokens.len() {
+                if let Some(data) = olf.formatted_tokens.get_formatting_data_mut(token_index) {
+                    if data.newlines_before > 0 {
+                        data.spaces_before = 0;
+                    }
                 }
             }
+            return;
         }
 
         /*
@@ -109,10 +115,6 @@ impl LogicalLineFileFormatter for OptimisingLineFormatter {
             the line wrapping caused by indentation of a multi-line string should
             not cause any multi-line strings to change in indentation.
         */
-        if !self.olf_settings.format_multiline_strings {
-            return;
-        }
-
         let string_formatter = multiline_strings::StringFormatter {
             recon_settings: &self.recon_settings,
         };
@@ -145,8 +147,8 @@ impl LogicalLineFileFormatter for OptimisingLineFormatter {
             string_formatter.format_multiline_strings(line, olf.formatted_tokens);
         }
 
-        // The reflow may have introduced new line breaks; as above, the spaces provided by
-        // `TokenSpacing` must not remain at the start of those lines.
+        // All lines are final now; as above, the spaces provided by `TokenSpacing` must not
+        // remain at the start of lines.
         for token_index in 0..olf.formatted_tokens.len() {
             if let Some(data) = olf.formatted_tokens.get_formatting_data_mut(token_index) {
                 if data.newlines_before > 0 {
